@@ -124,6 +124,21 @@ func (c *Ctx) condDesc(iff *ssa.If, succ int, loops []*ir.Loop) string {
 	if ex, ok := iff.Cond.(*ssa.Extract); ok && ex.Index == 1 {
 		switch t := ex.Tuple.(type) {
 		case *ssa.Lookup:
+			// a literal table of constant strings that is only consulted: membership is a
+			// condition on the key (the same as a chain of comparisons or a switch)
+			if mm, isMake := t.X.(*ssa.MakeMap); isMake {
+				if ks, ok := c.constTableKeys(mm); ok {
+					kd := c.valueDesc(t.Index)
+					if succ == 0 {
+						return kd + " in {" + strings.Join(ks, ",") + "}"
+					}
+					var parts []string
+					for _, k := range ks {
+						parts = append(parts, kd+" != "+k)
+					}
+					return strings.Join(parts, "\x1f")
+				}
+			}
 			if succ == 0 {
 				return "present(" + c.valueDesc(t.X) + "[" + c.valueDesc(t.Index) + "])"
 			}
@@ -166,6 +181,39 @@ func (c *Ctx) condDesc(iff *ssa.If, succ int, loops []*ir.Loop) string {
 		return "cond:" + c.valueDesc(iff.Cond)
 	}
 	return "!cond:" + c.valueDesc(iff.Cond)
+}
+
+// constTableKeys: mm is a map literal whose keys are constant strings and which
+// is never updated after its construction nor handed out; returns the quoted,
+// sorted keys.
+func (c *Ctx) constTableKeys(mm *ssa.MakeMap) ([]string, bool) {
+	keys := c.U.MapLiteralKeys(mm)
+	if len(keys) == 0 || mm.Referrers() == nil {
+		return nil, false
+	}
+	nUpd := 0
+	for _, r := range *mm.Referrers() {
+		switch r.(type) {
+		case *ssa.MapUpdate:
+			nUpd++
+		case *ssa.Lookup, *ssa.DebugRef:
+		default:
+			return nil, false
+		}
+	}
+	if nUpd != len(keys) {
+		return nil, false
+	}
+	var out []string
+	for _, k := range keys {
+		s, ok := ir.ConstString(k)
+		if !ok {
+			return nil, false
+		}
+		out = append(out, fmt.Sprintf("%q", s))
+	}
+	sort.Strings(out)
+	return out, true
 }
 
 // negDesc returns the decoded condition of the opposite branch.
@@ -231,7 +279,7 @@ func (c *Ctx) guardsOf(fn *ssa.Function, at ssa.Instruction) []string {
 		}
 		for k := 0; k < 2; k++ {
 			if ir.OnlyViaEdge(fn, at, ir.Edge{From: b, Succ: k}) && ir.CanReach(fn, ir.PathQuery{To: at}) {
-				out = append(out, c.condDesc(iff, k, loops))
+				out = append(out, strings.Split(c.condDesc(iff, k, loops), "\x1f")...)
 				handled[iff] = true
 			}
 		}
